@@ -569,7 +569,7 @@ def _compute(ctx, tier, seed, key, verbose):
 # -------------------------------------------------------------------------------------------------------------- reporting
 
 def reproduce_cmd(path=None):
-    return "cd /verif && VERIF_REPO=%s python3 -m lib.racetie --replay %s   (builds harness/racestress with `%s test -race -c`, runs this configuration again several times with GORACE=\"%s\" and looks for this signature)" % (
+    return "cd /verif && VERIF_REPO=%s python3 -m lib.racetie --replay %s   [or: VERIF_REPO=... bin/check <property> --replay <file>]   (builds harness/racestress with `%s test -race -c`, runs this configuration again several times with GORACE=\"%s\" and looks for this signature)" % (
         vcheck.REPO, path or "<this file>", vcheck.GO, GORACE % "<file>")
 
 
